@@ -315,6 +315,8 @@ def _pair(draw, tier):
     kind = draw(st.sampled_from(["pwc", "pwl"]))
     pool = draw(st.lists(st.integers(1, max(1, n - 1)), max_size=5))
     mp = 7 if tier == "quick" else 16
+    if draw(st.integers(0, 7)) == 0:
+        k0 += (1 << 31) * q          # epoch-like time axis: large offset, short pieces
     f = draw(pw_arrays(kind, q, k0, n, mp, pool))
     g = draw(pw_arrays(kind, q, k0, n, mp, pool, f["x"]))
     c = dict(kind="pair", f=f, g=g, c=draw(st.sampled_from([0.5, 2.0, -1.0, 0.25])),
